@@ -94,6 +94,8 @@ Qed.
 Section Refine.
 Variable c : xcfg.
 Hypothesis Hst : d_stale_changer c = false.
+Hypothesis Hpm : d_prev_from_memory c = false.
+Hypothesis Htb : d_revert_drops_tombstone c = false.
 
 Lemma bal_do_transfer s f t v s' r : do_transfer c s f t v = (s', r) ->
   match transfer (x_fees c) (bal s) f t v with
@@ -117,7 +119,7 @@ Lemma body_refines e t n s0 s1 res : log s0 = [] ->
   (forall a, rbal s1 a = bal s0 a) /\ (ok = false -> log s1 = []).
 Proof.
   intros Hl0 Hb.
-  destruct (tx_body_rrel c Hst (to_tx e t n) s0 s1 res Hb) as [[Hrb _] Hlog].
+  destruct (tx_body_rrel c Hst Hpm Htb (to_tx e t n) s0 s1 res Hb) as [[Hrb _] Hlog].
   assert (Hr : forall a, rbal s1 a = bal s0 a) by (intro a; rewrite Hrb; apply r_nolog_bal; exact Hl0).
   assert (Hfail : is_ok res = false -> log s1 = [] /\ beq (bal s1) (bal s0)).
   { intro Hf. assert (L : log s1 = []) by (apply Hlog; [exact Hf | right; left; destruct t; reflexivity | exact Hl0]).
@@ -244,14 +246,15 @@ Proof. induction l as [|a l IH]; intro s; simpl; [reflexivity|]. rewrite IH. app
 (** hence the C14 theorems about [Fees.apply_block] speak about the balances the judged model
     computes: conservation and receipts-per-transaction for the executable model *)
 Corollary exec_block_conservation c e dom ts ns s pre :
-  d_stale_changer c = false -> x_fees c = fcfg_fixed ->
+  d_stale_changer c = false -> d_prev_from_memory c = false -> d_revert_drops_tombstone c = false ->
+  x_fees c = fcfg_fixed ->
   admins e <> [] -> NoDup dom -> covers dom e ts ->
   let '(s', rcs, _) := exec_block c e s pre (to_txs e ts ns) in
   let '(_, _, g) := apply_block fcfg_fixed e (bal s) ts in
   conserve dom (bal s) (bal s') g /\ length rcs = length ts.
 Proof.
-  intros Hst Hf Ha Hnd Hcov. unfold exec_block.
-  pose proof (native_block_refines c Hst e ts ns 0%N (new_block s pre) (bal s)) as H.
+  intros Hst Hpm Htb Hf Ha Hnd Hcov. unfold exec_block.
+  pose proof (native_block_refines c Hst Hpm Htb e ts ns 0%N (new_block s pre) (bal s)) as H.
   assert (Hb : beq (bal (new_block s pre)) (bal s))
     by (intro a; unfold new_block; rewrite bal_fold_touch; reflexivity).
   specialize (H Hb). rewrite Hf in H.
